@@ -94,6 +94,36 @@ example : (calcFuseGroupInfo [[2, 0]] exA.duals).perm = [2, 0, 1]
     ∧ (calcFuseGroupInfo [[0], [1, 2]] exA.duals).perm = [0, 1, 2]
     ∧ (calcFuseGroupInfo [[0], [1, 2]] exA.duals).newNdim = 2 := by decide
 
+/-- with the guard satisfied (no empty group) the public `fuse` is `_fuse_core`, whatever
+    `expand_empty` says -/
+theorem fuseA_eq_fuseCore {R : Type} [Zero R] (a : Arr R) (groups : List (List Nat)) (mode : FuseMode)
+    (expandEmpty : Bool) (n : Nat) (hg : groupsOkB groups n = true) :
+    fuseA a groups mode expandEmpty = fuseCore a groups mode := by
+  have hok := groupsOk_iff.1 hg
+  have h1 : groups.filter (fun g => !g.isEmpty) = groups := by
+    rw [List.filter_eq_self]
+    intro g hgm
+    have := hok.gne g hgm
+    cases g with
+    | nil => exact absurd rfl this
+    | cons x xs => rfl
+  have h2 : (groups.zipIdx.filter (fun p => p.1.isEmpty)).map (·.2) = [] := by
+    rw [List.map_eq_nil_iff, List.filter_eq_nil_iff]
+    intro p hp
+    have hm := List.mem_zipIdx hp
+    have : p.1 ∈ groups := by rw [hm.2.2]; exact List.getElem_mem _
+    have := hok.gne p.1 this
+    cases hp1 : p.1 with
+    | nil => exact absurd hp1 this
+    | cons x xs => simp
+  have h3 : groups.isEmpty = false := by
+    cases hgr : groups with
+    | nil => exact absurd hgr hok.ne
+    | cons x xs => rfl
+  unfold fuseA
+  simp only [h1, h2, h3, Bool.false_eq_true, if_false, List.isEmpty_nil, Bool.not_true, Bool.and_false]
+  cases fuseCore a groups mode <;> rfl
+
 /-! ## 2. the per-sector plan: fused charge, direction, size -/
 
 /-- For every stored sector `s` the plan exists (`planSector` succeeds and is what
@@ -366,6 +396,8 @@ theorem unfuseAll_fuse_blocks_partial {R : Type} [Zero R] (a : Arr R) (gaxes : L
 theorem allZero_get {R : Type} [Zero R] (b : Blk R) (h : AllZero b) (i : List Nat) : b.get i = 0 :=
   get_of_allZero h i
 
+example : (∀ ix ∈ exA.indices, ix.sub = none) ∧ (∀ ix ∈ exB.indices, ix.sub = none)
+    ∧ exA.fermi = false ∧ [2, 0].length ≠ 1 := by decide
 example : view (do let x ← fuseCore exA [[2, 0]] .insert; unfuseAllA x) = view (.ok (exA.transposeA [2, 0, 1])) := by
   decide +kernel
 /-- two stored blocks restored, two extra blocks, both zero -/
